@@ -33,6 +33,10 @@ GEN_SPEC = {"imports": ["From God Require Import C12.GenEnv."], "items": [
     {"kind": "calls", "file": "lib/store/kv/store.go", "func": "kvStore.getRedis", "as": "kv_getRedis_calls"},
     {"kind": "calls", "file": "lib/store/kv/store.go", "func": "kvStore.DelCtx", "as": "kv_DelCtx_calls"},
     {"kind": "calls", "file": "lib/store/kv/store.go", "func": "New", "as": "kv_New_calls"},
+    {"kind": "calls", "file": "lib/store/redis/clientmanager.go", "func": "getClient", "as": "getClient_calls"},
+    {"kind": "calls", "file": "lib/store/redis/clustermanager.go", "func": "getCluster", "as": "getCluster_calls"},
+    {"kind": "calls", "file": "lib/store/redis/scriptcache.go", "func": "ScriptCache.GetSha", "as": "sc_GetSha_calls"},
+    {"kind": "calls", "file": "lib/store/redis/scriptcache.go", "func": "ScriptCache.SetSha", "as": "sc_SetSha_calls"},
 ]}
 QUICK_N = 130
 THOROUGH_N = 3000
